@@ -196,6 +196,47 @@ class StopScenario(cmdscn.CmdScenario):
         return thunk
 
 
+from checks import c08 as _c08      # noqa: E402
+
+
+class StopPolicyScenario(_c08.PolicyScenario):
+    """Stop at every point of a run whose tasks carry policies: wake-ups of
+    delayed tasks, wait-after completions, timeout timers and remaining
+    with-items iterations are the "late events" here (timers may fire while
+    other events are in flight, as in C08); the oracles are StopScenario's
+    plus the policy step oracles."""
+
+    def spec(self):
+        return ('checks.c11', 'StopPolicyScenario', self.kwargs())
+
+    def setup(self):
+        _c08.PolicyScenario.setup(self)
+        env.W.extra['stopped'] = {}
+
+    def extra_state(self):
+        return [_c08.PolicyScenario.extra_state(self),
+                sorted(env.W.extra['stopped'].items()),
+                env.W.extra.get('pending_stop')]
+
+    def check_step(self, pre, post, choice, ctx):
+        v = StopScenario.check_step(self, pre, post, choice, ctx)
+        v.extend(m for m in _c08.PolicyScenario.check_step(
+            self, pre, post, choice, ctx) if m not in v)
+        return v
+
+    def check_terminal(self, snap, ctx):
+        return StopScenario.check_terminal(self, snap, ctx)
+
+    def _engine_cmd(self, method, **kw):
+        base = _c08.PolicyScenario._engine_cmd(self, method, **kw)
+
+        def thunk():
+            if method == 'stop_workflow':
+                env.W.extra['last_stop_target'] = kw['wf_ex_id']
+            base()
+        return thunk
+
+
 def programs():
     T, direct = wfgen.T, wfgen.direct
     C = wfgen.curated()
